@@ -442,6 +442,10 @@ def gen_case(sub: str, seed: int) -> dict:
     if sub == "in":
         r, c = rnd.randint(1, 4), rnd.randint(1, 5)
         data = np.array([[rand_float(rnd) for _ in range(c)] for _ in range(r)], dtype=np.float64)
+        if r * c >= 2 and rnd.random() < 0.6:          # a NaN and a finite non-integer cell in the same matrix
+            i, j = rnd.sample(range(r * c), 2)
+            data[i // c, i % c] = np.nan
+            data[j // c, j % c] = rnd.choice([0.1, 1 / 3, -2.75, 1e-7, 123456789.12345679, 5e-324, rnd.uniform(-5, 5)])
         actions, akind = rand_actions(rnd, r, c)
         poison = rnd.choice(["bad-key", "nested-bad-key", "no-func"]) if rnd.random() < 0.12 else None
         return {"sub": sub, "seed": seed, "output": Output(data, actions, rand_namespace(rnd, poison)), "akind": akind, "poison": poison}
@@ -577,8 +581,6 @@ def run_case(res: StreamResult | None, script: Script | None, case: dict, workdi
             res.count(f"{sub}:outcome:{back_ans if back_ans.startswith('err') else 'ok'}")
         if sub == "in":
             expect_raise = case["poison"] is not None
-            if expect_raise and back is not None:
-                pass                                       # metadata json could write after all (a bad key overwritten by a later one)
             if not expect_raise:
                 if back is None:
                     if res is not None:
@@ -744,9 +746,8 @@ def run(tier: str, budget: Budget, rnd, arg: str) -> StreamResult:
                             group = []
                 if len(res.samples) < 4 and i < 2 and sub in ("in", "raw"):
                     res.sample({"sub": sub, "seed": seed, "line": (info["line"] or " ".join(json_words(case.get("entry", None))))[:400]}, limit=4)
-            if use_file_cleanup := (sub in ("in", "out")):
-                shutil.rmtree(base, ignore_errors=True)
-                base.mkdir(parents=True, exist_ok=True)
+            shutil.rmtree(base, ignore_errors=True)         # the files of this sub-stream are done with
+            base.mkdir(parents=True, exist_ok=True)
         # a fixed 65-level nest (beyond numpy's 64 dimensions) and its 64-level neighbour
         for depth in (64, 65):
             t = 1.5
